@@ -14,7 +14,7 @@ import (
 )
 
 func init() {
-	pbt.Describe("cases = a well-formed start file from the modgen grammar in which every directive line carries unique marker comments (leading 'B<id>', end-of-line 'S<id>'; for retract lines they are the rationale), with duplicate requires/excludes/replaces/tools and mixed line/block forms, plus 1-25 edit operations with valid arguments drawn mostly from what the file already contains (go.mod: AddModuleStmt AddGoStmt DropGoStmt AddToolchainStmt DropToolchainStmt AddGodebug DropGodebug AddRequire AddNewRequire DropRequire SetRequire SetRequireSeparateIndirect AddExclude DropExclude AddReplace DropReplace AddRetract DropRetract AddTool DropTool AddComment SortBlocks Cleanup; go.work: AddGoStmt DropGoStmt AddToolchainStmt DropToolchainStmt AddGodebug DropGodebug AddUse AddNewUse SetUse DropUse AddReplace DropReplace SortBlocks Cleanup); 40% of the operations follow up on the key the previous one touched. Cleanup is applied before every bulk setter and at the end. Oracle: the formatted output parses strictly; per directive kind the multiset of parsed values equals the list/map model written from the doc comments; every line the model says survived and that no operation rewrote still carries both its markers on the directive with its values. Non-trivial: at least two operations and the model changed. Distinct by JSON rendering.",
+	pbt.Describe("cases = a well-formed start file from the modgen grammar in which every directive line carries unique marker comments (leading 'B<id>', end-of-line 'S<id>'; for retract lines they are the rationale), with duplicate requires/excludes/replaces/tools and mixed line/block forms, plus 1-25 edit operations with valid arguments drawn mostly from what the file already contains (go.mod: AddModuleStmt AddGoStmt DropGoStmt AddToolchainStmt DropToolchainStmt AddGodebug DropGodebug AddRequire AddNewRequire DropRequire SetRequire SetRequireSeparateIndirect AddExclude DropExclude AddReplace DropReplace AddRetract DropRetract AddTool DropTool AddComment SortBlocks Cleanup; go.work: AddGoStmt DropGoStmt AddToolchainStmt DropToolchainStmt AddGodebug DropGodebug AddUse AddNewUse SetUse DropUse AddReplace DropReplace SortBlocks Cleanup); 40% of the operations follow up on the key the previous one touched. Cleanup is applied before every bulk setter and at the end. Oracle: the formatted output parses strictly; per directive kind the multiset of parsed values equals the list/map model written from the doc comments; every line the model says survived and that no operation rewrote still carries both its markers on the directive with its values. Non-trivial: at least two operations and the model changed. Distinct by JSON rendering. A quarter of the start lines carry no leading comment and a fifth no end-of-line comment; the comments a surviving line must carry are taken from the start file.",
 		"modedit model (written from the doc comments; AddReplace, which has none, is modelled as: empty old version collapses all replacements of the path into one wildcard at the first one's place, otherwise first exact match rewritten, other exact matches deleted, else appended)",
 		"arguments are valid in the sense the strict parser needs: godebug keys/values, tool and toolchain names are bare tokens; versions canonical and matching the path's major version (invalid ones are generated only for AddExclude/AddRetract, where an error and no change is expected)",
 		"blocks of retract and module directives carry no block-level comments in the start files: when Cleanup collapses a one-line commented block the block's comment joins the line's and the rationale/deprecation text would legitimately grow")
@@ -77,10 +77,23 @@ func check(c modedit.Case) pbt.Result {
 		if e.ID == 0 || e.Touched {
 			continue
 		}
-		b, s := fmt.Sprintf("B%d", e.ID), fmt.Sprintf("S%d", e.ID)
+		src, _ := c.Start.LineOf(e.ID)
+		b, s := strings.Join(src.Before, " "), "" // (some lines are bare: nothing above, nothing after)
+		if m := fmt.Sprintf("S%d", e.ID); strings.HasSuffix(src.Suffix, m) {
+			s = m
+		}
 		found := false
 		for _, d := range out.Reparsed {
-			if d.Verb == e.Verb && d.Canon == e.Canon() && hasWord(d.Before, b) && hasWord(d.Suffix, s) {
+			if d.Verb != e.Verb || d.Canon != e.Canon() || s != "" && !hasWord(d.Suffix, s) {
+				continue
+			}
+			all := true
+			for _, m := range src.Before {
+				if !hasWord(d.Before, m) {
+					all = false
+				}
+			}
+			if all {
 				found = true
 				break
 			}
